@@ -347,7 +347,7 @@ func c11Judge(r *c11Run, count c11Counter) []c11Finding {
 					count("account_dimensions_judged_nonzero", 1)
 				}
 				if got > bound {
-					out = append(out, c11Finding{"account-exceeds-victims", fmt.Sprintf("returned release of %s/%s is %d but the successfully evicted and the already-evicted pods free only %d", t.Type, res, got, bound), -1})
+					out = append(out, c11Finding{"account-exceeds-victims|" + t.Type + "/" + res, fmt.Sprintf("returned release of %s/%s is %d but the successfully evicted and the already-evicted pods free only %d", t.Type, res, got, bound), -1})
 				}
 			}
 		}
